@@ -109,10 +109,10 @@ func c04Routed(msg messages.Common, err error) (res string, alive bool) {
 			return fmt.Sprintf("code:%d", int(code)), true
 		}
 		s := err.Error()
-		if !strings.HasPrefix(s, "parsing message") {
-			if strings.HasPrefix(s, "wrong bits of message_id") {
-				return "err:parity2", true
-			}
+		if strings.HasPrefix(s, "wrong bits of message_id") {
+			return "err:parity2", true
+		}
+		if envStreamErr(err) {
 			return "err:transport(" + strings.ReplaceAll(s, " ", "_") + ")", false
 		}
 		if strings.Contains(s, "Wrong bits of message_id") || strings.Contains(s, "not equal defined size") {
